@@ -53,9 +53,16 @@ def sec1Flags (f : String) (bs : List Nat) : Bool :=
   | t :: _ => if f == "compressed" then t == 2 || t == 3 else t == 4
   | [] => false
 
+/-- ZCash flags: compressed form has C = 1, uncompressed C = 0 and S = 0; the infinity flag excludes the
+sort flag and every coordinate bit -/
 def blsFlags (f : String) (bs : List Nat) : Bool :=
   match bs with
-  | b0 :: _ => if f == "compressed" then b0 / 128 % 2 == 1 && !(b0 / 64 % 2 == 1 && b0 / 32 % 2 == 1) else true
+  | b0 :: rest =>
+    let c := b0 / 128 % 2 == 1
+    let i := b0 / 64 % 2 == 1
+    let s := b0 / 32 % 2 == 1
+    let infOk := !i || (!s && ((b0 % 32) :: rest).all (· == 0))
+    (if f == "compressed" then c else !c && !s) && infOk
   | [] => false
 
 def fmtBase (mont : Bool) (f : String) : Option String :=
@@ -93,13 +100,14 @@ def codec? (name : String) : Option Codec :=
       upToSign := fun f => mont && (f == "compressed" || f == "bytes"),
       len := fun f => if f == "compressed" || f == "bytes" then lc else if f == "uncompressed" then lu else 0,
       weierstrass := wei }
-  let sec1 (C : Params) : Option Codec := withPrime C.p none fun q =>
+  let sec1 (C : Params) (strict0 : Bool) : Option Codec := withPrime C.p none fun q =>
     let io := fpIO q
     let a := Fp.ofNat q C.a
     let b := Fp.ofNat q C.b
     some <| mk C false none true
       (fun f P => some (if f == "compressed" then Sec1.encodeCompressed io 32 (wOf P) else Sec1.encodeUncompressed io 32 (wOf P)))
-      (fun f bs => (if f == "compressed" then Sec1.decodeCompressed io a b 32 bs else Sec1.decodeUncompressed io a b 32 bs).map wTo)
+      (fun f bs => (if f == "compressed" then (if strict0 then Sec1.decodeCompressedS io a b 32 bs else Sec1.decodeCompressed io a b 32 bs)
+        else Sec1.decodeUncompressed io a b 32 bs).map wTo)
       (fun x y => (fromAffineW a b (Fp.ofNat q (x.headD 0)) (Fp.ofNat q (y.headD 0))).map wTo)
       (some fun x odd => (fromAffineX io a b (Fp.ofNat q (x.headD 0)) odd).map wTo)
       33 65
@@ -140,8 +148,8 @@ def codec? (name : String) : Option Codec :=
     if f == "compressed" then some ⟨hdr, be, len, k, flagsC, false⟩
     else if f == "uncompressed" then some ⟨hdr, be, len, 2 * k, flagsU, strictU⟩
     else none
-  if name == "k256" then (sec1 k256).map fun c => { c with flagsOk := sec1Flags, layout := lay 1 true 32 1 0 0 false }
-  else if name == "p256" then (sec1 p256).map fun c => { c with flagsOk := sec1Flags, layout := lay 1 true 32 1 0 0 false }
+  if name == "k256" then (sec1 k256 false).map fun c => { c with flagsOk := sec1Flags, layout := lay 1 true 32 1 0 0 false }
+  else if name == "p256" then (sec1 p256 true).map fun c => { c with flagsOk := sec1Flags, layout := lay 1 true 32 1 0 0 false }
   else if name == "pallas" then (pasta pallas).map fun c => { c with layout := lay 0 false 32 1 1 0 false }
   else if name == "vesta" then (pasta vesta).map fun c => { c with layout := lay 0 false 32 1 1 0 false }
   else if name == "ed25519" then (ed false).map fun c => { c with layout := lay 0 false 32 1 1 0 true }
@@ -316,7 +324,7 @@ def handlePoint (op cv fmt : String) (args : List String) (rhs : String) : Verdi
                 | _, _ => none,
               canonicalFor := fun M => cd.encode fmt M == some b }
           decVerdict cd ("decode-invalid-" ++ cv ++ "-" ++ base)
-            ("decode-value-" ++ cv ++ "-" ++ base) ("decode-rejects-valid-" ++ cv ++ "-" ++ base)
+            (keyFor cd "decode-value" cv fmt (model.getD .inf)) (keyFor cd "decode-rejects-valid" cv fmt (model.getD .inf))
             (cd.upToSign fmt) inp model rhs
     | _, _ => .unsupported ("C13 op " ++ op)
 
